@@ -184,7 +184,13 @@ func NewEnv(root, tier string, seed int64) (*Env, error) {
 	return env, nil
 }
 
-func (e *Env) Close() { os.RemoveAll(e.Tmp) }
+func (e *Env) Close() {
+	if os.Getenv("VERIF_DEV_KEEP_TMP") != "" { // development aid: keep traces and verdicts for inspection
+		fmt.Fprintln(os.Stderr, "kept:", e.Tmp)
+		return
+	}
+	os.RemoveAll(e.Tmp)
+}
 
 func writeNDJSON(path string, cases []Case) error {
 	f, err := os.Create(path)
